@@ -857,6 +857,10 @@ fn panic_class(msg: &str) -> &'static str {
         "status"
     } else if msg.contains("whose defining bind is not necessary") {
         "bind-not-necessary"
+    } else if msg.contains("cannot set max_height_allowed less than max height already seen") {
+        "below-max-seen"
+    } else if msg.contains("tried to set_max_height_allowed during stabilisation") {
+        "during-stabilisation"
     } else if msg.contains("verif-harness") {
         "harness-error"
     } else {
@@ -972,6 +976,26 @@ fn action(ctx: &C, toks: &[&str]) -> String {
             let c = resolve_ix(ctx, &[], &parse_opnd(c).unwrap());
             format!("ok d{}", expert_add(ctx, n, c, *cb == "cb"))
         }
+        ["dropall"] => {
+            // drop every handle, then the state: none of it may panic (a double panic aborts the process)
+            let obs: Vec<Vec<Observer<V>>> =
+                ctx.observers.borrow_mut().iter_mut().map(std::mem::take).collect();
+            drop(obs);
+            let vars = std::mem::take(&mut *ctx.vars.borrow_mut());
+            drop(vars);
+            let ex = std::mem::take(&mut *ctx.experts.borrow_mut());
+            drop(ex);
+            let deps = std::mem::take(&mut *ctx.deps.borrow_mut());
+            drop(deps);
+            let ph = std::mem::take(&mut *ctx.pair_handles.borrow_mut());
+            drop(ph);
+            let hs = std::mem::take(&mut *ctx.handles.borrow_mut());
+            drop(hs);
+            let st = ctx.state.borrow_mut().take();
+            drop(st);
+            "ok".into()
+        }
+        ["expectpanic", ..] => "ok".into(),
         ["arm", k] => {
             COUNTDOWN.with(|c| c.set(Some(k.parse().unwrap())));
             "ok".into()
@@ -1119,6 +1143,7 @@ pub fn run() {
             }
         });
         // reads
+        let state_alive = ctx.state.borrow().is_some();
         let reads: Vec<String> = {
             let obs = ctx.observers.borrow();
             obs.iter()
